@@ -262,6 +262,7 @@ class Aggregate:
         self.keys.update(res['keys'])
         if res['violations']:
             extra = {k: res[k] for k in ('schedule',) if k in res}
+            extra.update(res.get('schedule_extra', {}))
             self.violating.append((i, seed, res['violations'], extra))
         if keep_digest:
             self.digests[i] = res['digest']
@@ -285,10 +286,47 @@ class Aggregate:
                 'digests': self.digests, 'harness': self.harness, 'max_i': self.max_i}
 
 
+NO_PROGRESS_LINES = int(os.environ.get('YPSIM_NO_PROGRESS_LINES', '3000000'))
+FIRST_WALL_CAP_S = float(os.environ.get('YPSIM_FIRST_WALL_CAP_S', '6'))
+
+
+def run_plan(mod, plan):
+    """executes a plan; with plan['_line_budget'] set, under the line tracer, turning
+    'the engine does not come back' into the deterministic violation no-progress"""
+    lb = plan.get('_line_budget')
+    if not lb:
+        return mod.execute(plan)
+    tracer = LineBudget(lb, mod.traced_files() if hasattr(mod, 'traced_files') else None)
+    try:
+        with tracer:
+            res = mod.execute(plan)
+        res['lines'] = res.get('lines', 0) + tracer.count
+        return res
+    except BudgetExceeded:
+        return {'violations': [{'class': 'no-progress', 'detail': {'line_budget': lb}}], 'digest': 'no-progress:%d' % lb,
+                'events': 0, 'lines': tracer.count, 'counters': {'no_progress': 1}, 'keys': [], 'discard': None}
+
+
 def _exec_seed(args):
-    mod, seed, tier = args
+    mod, seed, tier = args[:3]
     plan = mod.gen(seed, tier)
-    return mod.execute(plan)
+    if len(args) > 3:
+        plan.update(args[3])
+    return run_plan(mod, plan)
+
+
+def run_seed_forked(mod, seed, tier):
+    """one run in a fork.  A run that does not come back within the (short) wall cap is
+    repeated under the line tracer with a count budget: either it completes (the
+    machine was merely slow; same digest, the tracer does not touch the log) or it ends
+    in the deterministic violation no-progress, which replays."""
+    res = run_forked(_exec_seed, (mod, seed, tier), FIRST_WALL_CAP_S)
+    if 'harness_timeout' in res:
+        extra = {'_line_budget': NO_PROGRESS_LINES}
+        res = run_forked(_exec_seed, (mod, seed, tier, extra), 120)
+        if res.get('violations'):
+            res['schedule_extra'] = extra
+    return res
 
 
 def _worker_loop(mod, prop, verif_seed, tier, w, nworkers, n_runs, deadline, digest_upto, wfd):
@@ -297,7 +335,7 @@ def _worker_loop(mod, prop, verif_seed, tier, w, nworkers, n_runs, deadline, dig
     max_viol = 40
     while i < n_runs and time.monotonic() < deadline:
         seed = derive_seed(verif_seed, prop, i)
-        res = run_forked(_exec_seed, (mod, seed, tier))
+        res = run_seed_forked(mod, seed, tier)
         agg.add(i, seed, res, i < digest_upto)
         if len(agg.violating) > max_viol:
             # keep the earliest ones only; a badly broken tree needs no more
@@ -372,8 +410,12 @@ def fan_out(mod, prop, verif_seed, tier, n_runs, budget_s, nworkers, digest_upto
 # ------------------------------------------------------------------------------------
 # shrinking
 
+def run_plan_of(mod):
+    return lambda plan: run_plan(mod, plan)
+
+
 def _violates(mod, plan, cls):
-    res = run_forked(mod.execute, plan)
+    res = run_forked(run_plan_of(mod), plan, 120 if plan.get('_line_budget') else None)
     for v in res.get('violations', ()):
         if v['class'] == cls:
             return v
@@ -475,7 +517,7 @@ def replay(mod, prop, path, verbose=False):
     if verbose:
         plan = dict(plan)
         plan['_keep'] = True
-    res = run_forked(mod.execute, plan)
+    res = run_forked(run_plan_of(mod), plan, 120)
     if 'harness_error' in res or 'harness_timeout' in res:
         print('HARNESS-ERROR during replay: %s' % res.get('harness_error', 'timeout'))
         return EXIT_HARNESS
@@ -547,7 +589,7 @@ def fresh_interpreter_digests(prop, verif_seed, tier, idxs, workers, hashseed=No
 def digests_only(mod, prop, verif_seed, tier, idxs):
     out = {}
     for i in idxs:
-        res = run_forked(_exec_seed, (mod, derive_seed(verif_seed, prop, i), tier))
+        res = run_seed_forked(mod, derive_seed(verif_seed, prop, i), tier)
         out[i] = res.get('digest', 'ERR:' + str(res)[:200])
     return out
 
@@ -572,7 +614,7 @@ def process_violations(mod, prop, tier, agg, out):
                 out('HARNESS-ERROR nondeterministic: run %d (seed %d) reported %s but does not repeat' % (i, seed, cls))
                 return EXIT_HARNESS, unlisted, known
             small = shrink(mod, plan, cls, shrink_box)
-            res = run_forked(mod.execute, small)
+            res = run_forked(run_plan_of(mod), small, 120)
             vs = [x for x in res.get('violations', ()) if x['class'] == cls]
             if not vs:
                 out('HARNESS-ERROR nondeterministic: shrunk plan of run %d does not repeat %s' % (i, cls))
